@@ -360,6 +360,9 @@ func (h *Harness) check(in *inst, x *sched.Exec) (string, []Finding) {
 		if subNet != len(live) || in.rep.subNeg {
 			add("C13", clSubCount, signSite("SubscriptionCount", subNet-len(live), in.rep.subNeg), class, "SubscriptionCountInc total %d, Dec total %d, uncompleted subscribers %d (%s)", in.rep.subInc, in.rep.subDec, len(live), names(live))
 		}
+		if in.rep.earlyDec != "" {
+			add("C13", clTrigCount, "TriggerCountDec reported while its trigger is still registered", class, "%s", in.rep.earlyDec)
+		}
 		if trNet != startedTrig || in.rep.trNeg {
 			tclass := class
 			if !in.overlap && in.rep.lateInc {
